@@ -1210,13 +1210,14 @@ def _third_batch(ctx):
             none = edge_for(inner, OPTION, 'None') if inner else None
             if none is not None:
                 licensed.add(none)
+            from .ordq import field_test_edges
+            for _, te_ in field_test_edges(k, 'closed', 'lock('):
+                licensed.add(te_)
             for bb, b in enumerate(k.blocks):
                 t = b['term']
                 if t and t['k'] == 'switch' and not b['cleanup'] and t['discr']['k'] != 'const':
                     e_ = k.expr_of_operand(t['discr'])
                     txt = render(e_)
-                    if txt.endswith('.closed') and 'lock(' in txt:
-                        licensed.add(t['otherwise'])
                     dty = ''
                     for s2_ in b['stmts']:
                         if s2_['k'] == 'assign' and s2_['rv']['k'] == 'discr':
